@@ -109,6 +109,21 @@ func classifyLoop(c *Ctx, bp *boundsProver, f *ssa.Function, l *Loop) (string, s
 				return "pointer chase", why
 			}
 		}
+		// (e') consumer loop through a helper: the exit test is the ok of a "take the front element" helper called on
+		// every trip (false exactly when the list is empty, otherwise one element was removed)
+		{
+			cnd := ci.Cond
+			if u, isNot := cnd.(*ssa.UnOp); isNot && u.Op == token.NOT {
+				cnd = u.X
+			}
+			if ex, isEx := cnd.(*ssa.Extract); isEx && ex.Index == 1 {
+				if call, isCall := ex.Tuple.(*ssa.Call); isCall && l.Blocks[call.Block()] && call.Block().Dominates(cb) {
+					if h := call.Call.StaticCallee(); h != nil && !call.Call.IsInvoke() && c.P.isModuleFn(h) && len(h.Blocks) > 0 && popFrontHelper(h) {
+						return "consumer", "exits when " + h.Name() + " finds the list empty; otherwise that helper removed one element: the list shrinks on every trip"
+					}
+				}
+			}
+		}
 		// (d) driver: the condition is the progress call itself
 		if name := progressSource(c, ci.Cond, l, 0); name != "" {
 			return "input driver", progressCalls[name]
